@@ -156,6 +156,17 @@ def dump_text(doc, knobs):
     return bytes(world.fs["/sim/w/session.yaml"]).decode("utf-8")
 
 
+def merged_view(typed):
+    """Typed data with every hash's pairs sorted (inheritance order is not
+    part of what a reader sees)."""
+    if isinstance(typed, tuple) and typed and typed[0] == "m":
+        return ("m", tuple(sorted(((merged_view(k), merged_view(v))
+                                   for k, v in typed[1]), key=repr)))
+    if isinstance(typed, tuple) and typed and typed[0] == "l":
+        return ("l", tuple(merged_view(v) for v in typed[1]))
+    return typed
+
+
 def reload_check(doc, knobs, prop, what):
     try:
         text = dump_text(doc, knobs)
@@ -447,6 +458,7 @@ class Session:
             raise ValueError("generator produced an unloadable document")
         self.doc = doc
         self.debug = bool(self.knobs.get("debug_log"))
+        self.merged_clean = True    # no assignment yet (see do_delete)
         self.proc = Processor(self.newlog(), doc)
         self.stats = {"steps": 0, "skipped": 0, "refused": 0, "matched": 0,
                       "forms": set(), "last_mutator": "C03"}
@@ -529,6 +541,7 @@ class Session:
         documents whose anchors were made by the library itself.
         """
         pre_ok = True
+        self.merged_clean = False
         try:
             if self.cli:
                 argv = ["--change=" + oper["path"],
@@ -619,6 +632,7 @@ class Session:
 
     # -- C03 ------------------------------------------------------------
     def do_set(self, oper):
+        self.merged_clean = False
         path = oper["path"]
         tree = model.build(self.doc)
         pre = model.canon(tree)
@@ -703,6 +717,34 @@ class Session:
             return
         self.stats["matched"] += 1
         self.stats["last_mutator"] = "C04"
+        # for the merged-view clause below: scalars that their parent hash
+        # owns (an inherited pair cannot be deleted from the inheriting hash,
+        # and deleting the merged hash itself takes its pairs with it)
+        merged_ok = self.merged_clean and not self.cli \
+            and "<<" in self.text
+        if merged_ok:
+            for pos in positions:
+                try:
+                    holder = snapshot.get_at(self.doc, pos[:-1])
+                    mnode = model.at(tree, pos)
+                except (KeyError, IndexError, TypeError):
+                    merged_ok = False
+                    break
+                if mnode.kind != "s" or getattr(holder, "merge", None):
+                    # (a hash that inherits: deleting its own pair uncovers
+                    # the inherited one in the file, not in ruamel's memory)
+                    merged_ok = False
+                    break
+                if hasattr(holder, "non_merged_items") and pos[-1][0] == "k" \
+                        and pos[-1][1] not in {
+                            snapshot.typed(k)
+                            for k, _v in holder.non_merged_items()}:
+                    merged_ok = False
+                    break
+        if not merged_ok:
+            # ruamel's in-memory view through merge keys may be stale from
+            # here on; the clause is not applied to later steps either
+            self.merged_clean = False
         if self.cli:
             self.run_cli(["--change=" + path, "-D"], "C04",
                          "delete " + path)
@@ -731,7 +773,20 @@ class Session:
                             {"path": path, "route": oper.get("route"),
                              "matched": [render(p, "/") for p in positions],
                              "diff": model.diff(want, post)})
-        reload_check(self.doc, self.knobs, "C04", "delete " + path)
+        again = reload_check(self.doc, self.knobs, "C04", "delete " + path)
+        if merged_ok:
+            # What a reader sees *through* YAML merge keys must agree with
+            # what was written: a deleted key may not live on in the hashes
+            # that inherited it.  (Only while every step so far was a delete
+            # or a read: ruamel itself does not refresh inherited copies
+            # after an assignment, which is not yamlpath's doing.)
+            want = merged_view(snapshot.typed_merged(self.doc))
+            got = merged_view(snapshot.typed_merged(again))
+            if want != got:
+                raise Violation(
+                    "C04", "deleted-node-still-visible-through-a-merge-key",
+                    {"path": path,
+                     "diff": model.diff((want, (), ()), (got, (), ()))})
 
     def do_delete_root(self, oper):
         if self.cli:
@@ -807,6 +862,7 @@ class Session:
                              "diff": model.diff(pre, post)})
 
     def do_create(self, oper):
+        self.merged_clean = False
         base = tuple((k, tuple(r) if isinstance(r, list) else r)
                      for k, r in oper["base"])
         tail = tuple((k, tuple(r) if isinstance(r, list) else r)
